@@ -236,6 +236,8 @@ type Checker[C any] struct {
 	Property string
 	Gen      func(*rapid.T) C
 	Check    func(C) error
+	// ManualEval: Check counts its evaluations itself (several inputs per case).
+	ManualEval bool
 	// Journal makes every case be written out before it is executed, so that a
 	// case that terminates the process can be recovered by the driver.
 	Journal bool
@@ -251,7 +253,9 @@ func (c Checker[C]) Rapid(t *testing.T) {
 		if c.Journal && journal != "" {
 			writeCase(journal, c.Property, cs, "journal: case was being executed when the process ended")
 		}
-		Eval()
+		if !c.ManualEval {
+			Eval()
+		}
 		err := Safely(func() error { return c.Check(cs) })
 		if err != nil {
 			writeCase(casefile, c.Property, cs, err.Error())
@@ -292,7 +296,9 @@ func (c Checker[C]) Replay(t *testing.T) {
 		if c.Journal {
 			writeCase(os.Getenv("VERIF_JOURNAL"), c.Property, cs, "journal: case was being executed when the process ended")
 		}
-		Eval()
+		if !c.ManualEval {
+			Eval()
+		}
 		Class("replayed")
 		if err := Safely(func() error { return c.Check(cs) }); err != nil {
 			writeCase(os.Getenv("VERIF_CASEFILE"), c.Property, cs, err.Error())
@@ -366,4 +372,55 @@ func IsKnown(property string, attrs map[string]string) (string, bool) {
 		}
 	}
 	return "", false
+}
+
+// RepoFile reads a file of the repository under test (fixtures); ok is false
+// when it does not exist.
+func RepoFile(rel string) ([]byte, bool) {
+	root := os.Getenv("VERIF_REPO")
+	if root == "" {
+		root = "/repo"
+	}
+	b, err := os.ReadFile(filepath.Join(root, rel))
+	if err != nil {
+		return nil, false
+	}
+	return b, true
+}
+
+// ---------------------------------------------------------------------------
+// native fuzzing glue
+
+// FuzzCase is the replay form of a native fuzz input.
+type FuzzCase struct {
+	FuzzTarget string
+	Args       []Hex
+}
+
+// FuzzBody wraps a byte-level oracle as the body of a native fuzz target: on
+// a failure the input is written to $VERIF_CASEFILE as a FuzzCase.
+func FuzzBody(property, target string, f func([]byte) error) func(*testing.T, []byte) {
+	return func(t *testing.T, in []byte) {
+		err := Safely(func() error { return f(in) })
+		if err != nil {
+			writeCase(os.Getenv("VERIF_CASEFILE"), property, FuzzCase{FuzzTarget: target, Args: []Hex{append([]byte{}, in...)}}, err.Error())
+			t.Fatalf("%s violated: %v", property, err)
+		}
+	}
+}
+
+// FuzzReplay replays a FuzzCase file named by $VERIF_REPLAY through the same oracle.
+func FuzzReplay(t *testing.T, property string, targets map[string]func([]byte) error) {
+	c := Checker[FuzzCase]{Property: property, Check: func(fc FuzzCase) error {
+		f, ok := targets[fc.FuzzTarget]
+		if !ok {
+			return fmt.Errorf("bad case: unknown fuzz target %q", fc.FuzzTarget)
+		}
+		var in []byte
+		if len(fc.Args) > 0 {
+			in = fc.Args[0]
+		}
+		return f(in)
+	}, Journal: true}
+	c.Replay(t)
 }
